@@ -936,3 +936,10 @@ def run(idx, rep, tier):
     from .shared import share
     from .c04 import r8 as _c04r8
     share(k, 'C16.R13', 'key equality covers the whole encoded public key (= C04.R8): two keys that differ in any public parameter (the DSA generator) are different signers', _c04r8)
+    from .c17 import lines_split_on_newline_only
+    rep.rule('C16.R14', 'allowed-signers data is cut into entries at "\\n" only (= C17.R8): a principal or comment containing \\x0c / \\u2028 must not start a second entry that authorises another key for any identity')
+    _b4 = len(rep.obligations)
+    lines_split_on_newline_only(k, 'C16.R14')
+    _kept = [o for o in rep.obligations[_b4:] if 'sshsig' in o.key]
+    del rep.obligations[_b4:]
+    rep.obligations.extend(_kept)
